@@ -149,7 +149,10 @@ def call(cb: Any, e: ast.Call, s: St, quiet: bool) -> tuple[Any, St]:
             if d is None or any(len(t.axes) != n for t in ts):
                 return it.top(f, e, 'cat dim'), s
             if lst.star:
-                return replace(ts[0], axes=ts[0].axes[:d] + (('gathered', ts[0].axes[d]),) + ts[0].axes[d + 1:], alias=frozenset(), src=''), s
+                a0 = ts[0].axes[d]
+                full = a0[1] if isinstance(a0, tuple) and a0 and a0[0] == 'shard' else ('gathered', a0)
+                it.events.append(('gather-cat', f, e, (d - n, a0)))
+                return replace(ts[0], axes=ts[0].axes[:d] + (full,) + ts[0].axes[d + 1:], alias=frozenset(), src='', quals=frozenset()), s
             for t in ts[1:]:
                 for i in range(n):
                     if i != d and t.axes[i] != ts[0].axes[i]:
@@ -194,7 +197,8 @@ def call(cb: Any, e: ast.Call, s: St, quiet: bool) -> tuple[Any, St]:
                 it.events.append(('split-dim', f, e, norm(dimn) if dimn is not None else '0'))
                 return ListV((replace(x, axes=tuple(('shard?', a) for a in x.axes)),), star=True), s
             ax = x.axes[d]
-            new = ax[1] if isinstance(ax, tuple) and ax[0] == 'gathered' else ('shard', ax)
+            new = ax[1] if isinstance(ax, tuple) and ax[0] == 'gathered' else (ax if getattr(it, 'single_partition', False) else ('shard', ax))
+            it.events.append(('split', f, e, (d - len(x.axes), ax)))
             return ListV((replace(x, axes=x.axes[:d] + (new,) + x.axes[d + 1:], quals=frozenset()),), star=True), s
         return it.top(f, e, 'split'), s
     if fn == 'torch.triu_indices':
@@ -476,6 +480,8 @@ def bind(it: Any, e: ast.Call, g: Func, args: list, cb: Any, s: St) -> dict:
         if n not in out and n != 'self':
             if isinstance(d, ast.Constant):
                 out[n] = NONE if d.value is None else (SV((), str(d.value), 'flag') if isinstance(d.value, bool) else SV((), repr(d.value), 'num'))
+            elif isinstance(d, ast.UnaryOp) and isinstance(d.op, ast.USub) and isinstance(d.operand, ast.Constant):
+                out[n] = SV((), repr(-d.operand.value), 'num')
     return out
 
 
